@@ -80,7 +80,7 @@ func flavours() []flavour {
 
 func encode(fl flavour, m restlicodec.Marshaler) (string, error) {
 	if fl.name == "query" {
-		s, err := restlicodec.BuildQueryParams(func(kw func(string) restlicodec.Writer) error { return m.MarshalRestLi(kw("p")) })
+		s, err := buildQueryParams(func(kw func(string) restlicodec.Writer) error { return m.MarshalRestLi(kw("p")) })
 		if err != nil {
 			return "", err
 		}
@@ -109,7 +109,7 @@ func decode(fl flavour, s string, typ reflect.Type) (reflect.Value, error) {
 			return ptr, fmt.Errorf("%s is not an Unmarshaler", typ)
 		}
 		seen := false
-		err = qr.ReadRecord(restlicodec.NewRequiredFields().Add("p"), func(r restlicodec.Reader, field string) error {
+		err = qr.ReadRecord(requiredFields("p"), func(r restlicodec.Reader, field string) error {
 			if field == "p" {
 				seen = true
 				return u.UnmarshalRestLi(r)
@@ -568,4 +568,34 @@ func clip(s string) string {
 		return s[:300] + "..."
 	}
 	return s
+}
+
+// typedMap turns a decoded-JSON style document whose members all have one scalar Go type into the TYPED map an
+// application may equally hand to the untyped reader (map[string]int32, map[string]bool, map[string]string ...).
+func typedMap(plain any) (any, bool) {
+	m, ok := plain.(map[string]any)
+	if !ok || len(m) == 0 {
+		return nil, false
+	}
+	var t reflect.Type
+	for _, v := range m {
+		if v == nil {
+			return nil, false
+		}
+		vt := reflect.TypeOf(v)
+		switch vt.Kind() {
+		case reflect.Bool, reflect.Int32, reflect.Int64, reflect.Float32, reflect.Float64, reflect.String:
+		default:
+			return nil, false
+		}
+		if t != nil && vt != t {
+			return nil, false
+		}
+		t = vt
+	}
+	out := reflect.MakeMap(reflect.MapOf(reflect.TypeOf(""), t))
+	for k, v := range m {
+		out.SetMapIndex(reflect.ValueOf(k), reflect.ValueOf(v))
+	}
+	return out.Interface(), true
 }
